@@ -29,6 +29,7 @@ pub struct JobRun {
     pub routes: Vec<(u32, crate::build::RouteKind)>,
     /// cache of the routing monitor's statistics
     pub routing_stats: std::cell::RefCell<Option<crate::monitors::RoutingStats>>,
+    pub layout_cores: Vec<u64>,
 }
 
 pub enum RunResult {
@@ -75,6 +76,7 @@ pub fn run_spec(job: &JobSpec, cfg: &ConfigSpec, opts: &RunOpts, addr: AddrSeed)
                 edges,
                 routes,
                 routing_stats: Default::default(),
+                layout_cores: cfg.layout.cores(),
             })
         }
         JobOutcome::Deadlock(d) => RunResult::Deadlock(d, ctx),
